@@ -838,6 +838,34 @@ class World:
             return
         if ret is not sh:
             self.flag("C04", "I5", "identity", {"var": e.name, "in": "shadow-solve"})
+        if self.prop in ("C12", "C03"):
+            # the explicit step on another deep copy: old + dt*RHS on interior cells,
+            # boundary values re-imposed for the current BCs, input untouched
+            sh2 = copy.deepcopy(e.obj)
+            old_int = A.interior(sh2)
+            rhs = np.linspace(-1.0, 1.0, n)
+            try:
+                r2 = pf.solveExplicitPDE(sh2, 0.05, rhs)
+            except Exception as ex:
+                self.flag("C12", "I6", "explicit/step-raises/origin=%s" % origin,
+                          {"var": e.name, "exc": repr(ex), "in": "shadow-explicit"})
+                r2 = None
+            if r2 is not None:
+                st = self.ents[e.meta["bc"]].meta["state"]
+                cls, faces = self.mesh_model(ment)
+                want = old_int + 0.05 * np.reshape(rhs, shp)[(slice(1, -1),) * nd]
+                if not same(A.interior(r2), want, 1e-12):
+                    self.flag("C12", "I6", "explicit/update-formula", {"var": e.name, "in": "shadow-explicit"})
+                elif not exact(A.interior(sh2), old_int):
+                    self.flag("C12", "I6", "explicit/input-modified", {"var": e.name, "in": "shadow-explicit"})
+                else:
+                    bad = O.bc_relation_failures(cls, faces, st, A.full_array(r2))
+                    if bad:
+                        flags = "".join("P" if O.axis_periodic(st, ax) else "-" for ax in range(nd))
+                        self.flag("C12", "I6", "explicit/bc-relation/axis%d/%s" % (bad[0][0], bad[0][1]),
+                                  {"var": e.name, "side": bad[0][2], "in": "shadow-explicit"})
+                        self.flag("C03", "I4", "%s/shadow-explicit/axis%d/%s/%s"
+                                  % (cls, bad[0][0], bad[0][1], flags), {"var": e.name, "side": bad[0][2]})
         if self.prop == "C03":
             # the boundary values the copy reports after the solve satisfy the relation
             st = self.ents[e.meta["bc"]].meta["state"]
